@@ -626,10 +626,32 @@ class Unsupported(Exception):
     pass
 
 
+def _stmt_defs(s):
+    """variables a model statement defines (recursively)"""
+    if s[0] == "pure":
+        return {s[1]}
+    if s[0] == "if":
+        return set().union(*[_stmt_defs(x) for x in s[2] + s[3]]) if s[2] + s[3] else set()
+    if s[0] == "for":
+        return {s[4]}.union(*[_stmt_defs(x) for x in s[5]])
+    return set()
+
+
 class Conv:
-    def __init__(self, f: func.FuncOp):
+    """IR -> model AST. `carried=True` desugars loop-carried DATA values and conditional DATA results into identity casts of the
+    (non-SSA) model environment, keeping every use in SSA order:
+      %r = scf.for … iter_args(%p = %x) { body; yield %y }   ~>   q := x  (right after the definition of x in the block, or at the
+      start of the block); for … { p := q; body; q := y }; r := q
+      %r = scf.if c { …; yield %a } else { …; yield %b }      ~>   if c { …; r := a } else { …; r := b }
+    `stmt_index[op]` is the index of an op's statement in its model block."""
+
+    def __init__(self, f: func.FuncOp, carried=False):
         from snaxc.dialects import accfg
         self.accfg = accfg
+        self.carried = carried
+        self.has_carried = False
+        self.stmt_index = {}
+        self.span_end = {}
         self.vars = {}
         self.accs = []
         self.fields = []
@@ -674,13 +696,59 @@ class Conv:
     def is_state(self, v):
         return isinstance(v.type, (self.accfg.StateType, self.accfg.TokenType))
 
-    def block(self, block: Block):
-        out = []
+    def block(self, block: Block, head=(), tail_of=None):
+        items = [(s, None, 0) for s in head]  # (statement, real op, number of trailing desugaring statements)
         for op in block.ops:
             s = self.op(op)
-            if s is not None:
-                out.append(s)
+            if s is None:
+                continue
+            if isinstance(s, tuple):  # loop with carried data values: (initialisations, loop statement, result casts)
+                pre, st, post = s
+                for (ps, xv) in pre:
+                    pos = len(head)
+                    for k in range(len(items) - 1, -1, -1):
+                        if xv in _stmt_defs(items[k][0]):
+                            pos = k + 1 + items[k][2]
+                            break
+                    else:
+                        pos = 0  # defined outside this block (or a block argument): at the start of the block
+                    items.insert(pos, (ps, None, 0))
+                items.append((st, op, len(post)))
+                items += [(x, None, 0) for x in post]
+            else:
+                items.append((s, op, 0))
+        if tail_of is not None:
+            items += [(x, None, 0) for x in tail_of()]
+        for k, (_s, op, npost) in enumerate(items):
+            if op is not None:
+                self.stmt_index[op] = k
+                self.span_end[op] = k + npost
+        return [x[0] for x in items]
+
+    def map_path(self, real_path, mod):
+        """[(region, block, op index)…] from the module -> [i0, r1, i1, …] inside the function body (model statement indices)"""
+        out = []
+        op = mod
+        for k, (r, b, i) in enumerate(real_path):
+            if b != 0:
+                raise Unsupported("multi-block region")
+            child = list(op.regions[r].blocks[0].ops)[i]
+            if k >= 1:
+                if k > 1:
+                    out.append(r)
+                if child not in self.stmt_index:
+                    raise Unsupported("position of an op without a model statement")
+                out.append(self.stmt_index[child])
+            op = child
         return out
+
+    def block_at(self, real_path, mod):
+        """the real block that contains the op at real_path"""
+        op = mod
+        for (r, b, i) in real_path[:-1]:
+            op = list(op.regions[r].blocks[0].ops)[i]
+        r, b, i = real_path[-1]
+        return op.regions[r].blocks[0]
 
     def op(self, op: Operation):
         accfg = self.accfg
@@ -711,18 +779,44 @@ class Conv:
                 raise Unsupported("call with operands")
             return ["call", self.ncall, bool(has_accfg_effects(op))]
         if isinstance(op, scf.IfOp):
-            if any(not self.is_state(r) for r in op.results):
+            data = [k for k, r in enumerate(op.results) if not self.is_state(r)]
+            if data and not self.carried:
                 raise Unsupported("scf.if with data results")
             c = self.use(op.cond)
-            t = self.block(op.true_region.block) if op.true_region.blocks else []
-            e = self.block(op.false_region.block) if op.false_region.blocks else []
+
+            def branch(region):
+                if not region.blocks:
+                    return []
+                blk = region.block
+                y = blk.last_op
+
+                def tail():
+                    return [["pure", self.var(op.results[k]), ["cast"], [self.use(y.operands[k])]] for k in data]
+                return self.block(blk, tail_of=tail if data else None)
+            if data:
+                self.has_carried = True
+            t = branch(op.true_region)
+            e = branch(op.false_region)
             return ["if", c, t, e]
         if isinstance(op, scf.ForOp):
-            if any(not self.is_state(r) for r in op.results):
+            data = [k for k, r in enumerate(op.results) if not self.is_state(r)]
+            if data and not self.carried:
                 raise Unsupported("scf.for with data iter_args")
             lb, ub, st = self.use(op.lb), self.use(op.ub), self.use(op.step)
             iv = self.var(op.body.block.args[0])
-            return ["for", lb, ub, st, iv, self.block(op.body.block)]
+            if not data:
+                return ["for", lb, ub, st, iv, self.block(op.body.block)]
+            self.has_carried = True
+            qs = {k: self.var(("carried", op, k)) for k in data}
+            pre = [(["pure", qs[k], ["cast"], [self.use(op.iter_args[k])]], self.use(op.iter_args[k])) for k in data]
+            head = [["pure", self.var(op.body.block.args[1 + k]), ["cast"], [qs[k]]] for k in data]
+            y = op.body.block.last_op
+
+            def tail():
+                return [["pure", qs[k], ["cast"], [self.use(y.operands[k])]] for k in data]
+            body = self.block(op.body.block, head=head, tail_of=tail)
+            post = [["pure", self.var(op.results[k]), ["cast"], [qs[k]]] for k in data]
+            return (pre, ["for", lb, ub, st, iv, body], post)
         if isinstance(op, (scf.YieldOp, func.ReturnOp)):
             return None
         raise Unsupported(op.name)
